@@ -274,14 +274,14 @@ class Run(object):
         self.sess = W.session_mod.KmipSession(self.w.engine, self.conn, ('127.0.0.1', 1), name='c12')
         self.exc = None
         self.before = self.w.raw_key()
-        t0 = time.time()
+        t0 = time.thread_time()      # CPU time of this thread: a verdict must not depend on machine load
         W.CLOCK.now = W.T0 + 50
         W.LOGS.clear()
         try:
             self.sess.run()
         except BaseException as e:    # noqa
             self.exc = e
-        self.elapsed = time.time() - t0
+        self.elapsed = time.thread_time() - t0
         self.after = self.w.raw_key()
         self.escaped = [t for t in W.LOGS.texts() if 'Failure handling message loop' in t[2]]
 
@@ -322,7 +322,7 @@ def judge_stream(stream, label, part, chunker=None, expect_probe=False, ctx=None
                            "%s: an exception escaped _handle_message_loop: %s" % (
                                label, r.escaped[0][2].splitlines()[-1][:150]), ctx)
         if r.elapsed > 10:
-            part.violation("slow|%s" % key, "%s: the session needed %.1fs" % (label, r.elapsed), ctx)
+            part.violation("slow|%s" % key, "%s: the session needed %.1fs of CPU time" % (label, r.elapsed), ctx)
         if 'close' not in r.conn.calls:
             part.violation("no-close|%s" % key, "%s: the connection was not closed" % label, ctx)
         if len(r.conn.sent) != len(frames):
